@@ -32,6 +32,7 @@ import (
 
 type cfg struct {
 	pre bool
+	presend []int
 	stage, pkg, mode string
 	mon              string // fork.Fold / Fold: monoid name (default: the non-commutative affine one)
 	cap, par, n, fn  int
@@ -85,6 +86,13 @@ func parseCfg(s string) cfg {
 			c.freq = iv
 		case "dl":
 			c.dl = iv
+		case "presend":
+			for _, x := range strings.Split(p[1], ",") {
+				if x != "" {
+					v, _ := strconv.Atoi(x)
+					c.presend = append(c.presend, v)
+				}
+			}
 		case "pre": // the caller's context is already cancelled when the stage is created (the script starts with `x`)
 			c.pre = iv != 0
 		case "work":
